@@ -10,3 +10,27 @@ pub fn vslice_copy<T: Copy>(v: &mut Vec<T>, a: usize, b: usize, src: &[T])
     requires a <= b <= old(v)@.len(), src@.len() == b - a
     ensures final(v)@ == old(v)@.subrange(0, a as int) + src@ + old(v)@.subrange(b as int, old(v)@.len() as int)
 { v[a..b].copy_from_slice(src) }
+// R13: `v.sort_by(|a, b| a.0.partial_cmp(&b.0).unwrap())` (and the b/a form).  std semantics: the result
+// is a permutation of the input (stated with an explicit pair of inverse index maps) ordered by the
+// first component.  The `unwrap` panics on a NaN key: "event times are not NaN" is the stated assumption
+// replacing that panic.
+pub open spec fn is_perm_of<T>(a: Seq<T>, b: Seq<T>, p: Seq<int>, q: Seq<int>) -> bool {
+    &&& a.len() == b.len() && p.len() == a.len() && q.len() == a.len()
+    &&& forall|k: int| 0 <= k < a.len() ==> 0 <= #[trigger] p[k] < a.len() && q[p[k]] == k && a[k] == b[p[k]]
+    &&& forall|j: int| 0 <= j < a.len() ==> 0 <= #[trigger] q[j] < a.len() && p[q[j]] == j
+}
+#[verifier::external_body]
+pub fn sort_key0_asc(v: &mut Vec<(Float, usize, Vec<Float>)>)
+    ensures exists|p: Seq<int>, q: Seq<int>| is_perm_of(final(v)@, old(v)@, p, q),
+        forall|a: int, b: int| 0 <= a < b < final(v)@.len() ==> (#[trigger] final(v)@[b]).0.partial_cmp_spec(&(#[trigger] final(v)@[a]).0) != Some(Ordering::Less),
+{ v.sort_by(|a, b| a.0.partial_cmp(&b.0).unwrap()) }
+#[verifier::external_body]
+pub fn sort_key0_desc(v: &mut Vec<(Float, usize, Vec<Float>)>)
+    ensures exists|p: Seq<int>, q: Seq<int>| is_perm_of(final(v)@, old(v)@, p, q),
+        forall|a: int, b: int| 0 <= a < b < final(v)@.len() ==> (#[trigger] final(v)@[b]).0.partial_cmp_spec(&(#[trigger] final(v)@[a]).0) != Some(Ordering::Greater),
+{ v.sort_by(|a, b| b.0.partial_cmp(&a.0).unwrap()) }
+pub mod stdx { use vstd::prelude::*;
+/// a Vec never holds more than usize::MAX elements (std guarantees <= isize::MAX bytes)
+pub broadcast axiom fn vec_len_bound<T>(v: Vec<T>) ensures #[trigger] v@.len() <= usize::MAX;
+pub broadcast group std_axioms { vec_len_bound }
+}
